@@ -87,6 +87,8 @@ def intrinsic(case, io, ia):
         pre = _prefix.get(case.meta['pair'])
         if pre is not None and pre.exit != 0:
             return None      # the prefix itself fails: the construct is never reached
+        if stage == 'run' and any(d['kind'] == 'syntax' for d in io.diags):
+            return None      # a syntax error elsewhere in the text: nothing runs, the run-time construct is never reached
         if not ped or io.exit != 1:
             return 'the %s construct was not rejected with a pedantic Error (exit %s, diagnostics %s)' % (case.meta['construct'], io.exit, [d['kind'] for d in io.diags])
         if stage in ('lex', 'parse'):
